@@ -62,10 +62,17 @@ def proj_point(proj, x, y, inverse=False):
 
 
 class InvertibleProjection:
-    """concrete invertible projection accepting inverse=True"""
+    """concrete invertible projection accepting inverse=True (affine, or non-linear in the northing like Mercator)"""
+
+    def __init__(self, kind="affine"):
+        self.kind = kind
 
     def __call__(self, e, n, inverse=False):
         e, n = np.asarray(e, dtype=float), np.asarray(n, dtype=float)
+        if self.kind == "nonlinear":
+            if inverse:
+                return (e - 10.0) / 2.0 - 0.3 * np.arcsinh(n), np.arcsinh(n)
+            return 2.0 * (e + 0.3 * n) + 10.0, np.sinh(n)
         if inverse:
             return (e - 10.0) / 2.0, (n + 1.0) / -3.0
         return 2.0 * e + 10.0, -3.0 * n - 1.0
@@ -371,6 +378,8 @@ class GridderProfile(Contract):
             if rng.random() < 0.3:
                 kw["extra_coords"] = 3.0
             yield (ConcreteAsymmetric(rng.randint(1, 3)), (rng.uniform(-3, 0), rng.uniform(-3, 3)), (rng.uniform(1, 4), rng.uniform(-3, 3)), rng.choice([1, 2, 7])), kw
+        for size in (2, 5, 9):  # a projection that is not affine: interior points must go through the INVERSE projection
+            yield (ConcreteAsymmetric(rng.randint(1, 2)), (rng.uniform(-3, 0), rng.uniform(-2, -1)), (rng.uniform(1, 4), rng.uniform(1, 2.5)), size), {"projection": InvertibleProjection("nonlinear")}
 
     tol = (1e-8, 1e-8)
 
